@@ -226,6 +226,28 @@ func c02Gen(tier string, emit func(any)) {
 			emit(&SCase{Changes: []*model.Change{impCh}, File: "package p\n\nimport " + spec + "\n\nfunc _() {\n\t" + strings.Join(calls, "\n\t") + "\n}\n", Tag: "F4-import-metavar/" + spec})
 		}
 	}
+	// F4b: two import lines, each naming its import by a metavariable that the body uses: both bindings hold for the
+	// whole file, whatever the order of the lines
+	for _, order := range [][2]int{{0, 1}, {1, 0}} {
+		imps := []model.Import{{Tag: " ", Name: "a", Path: "p/uno"}, {Tag: " ", Name: "b", Path: "p/dos"}}
+		ch := &model.Change{Kind: "expr", Meta: []model.MetaVar{{Name: "a", Kind: "identifier"}, {Name: "b", Kind: "identifier"}},
+			Imports: []model.Import{imps[order[0]], imps[order[1]]}, Lines: model.L("-a.Get(b.Key)", "+compat.Get(a, b)")}
+		for _, specs := range [][2]string{{`uno "p/uno"`, `dos "p/dos"`}, {`"p/uno"`, `"p/dos"`}, {`u "p/uno"`, `dos "p/dos"`}, {`uno "p/uno"`, `d "p/dos"`}} {
+			n0, n1 := strings.Fields(specs[0])[0], strings.Fields(specs[1])[0]
+			if strings.HasPrefix(n0, `"`) {
+				n0 = "a"
+			}
+			if strings.HasPrefix(n1, `"`) {
+				n1 = "b"
+			}
+			for _, calls := range seqs([]string{n0 + ".Get(" + n1 + ".Key)", "other.Get(" + n1 + ".Key)", n0 + ".Get(other.Key)", n1 + ".Get(" + n0 + ".Key)"}, 2) {
+				if len(calls) == 0 {
+					continue
+				}
+				emit(&SCase{Changes: []*model.Change{ch}, File: "package p\n\nimport (\n\t" + specs[0] + "\n\t" + specs[1] + "\n)\n\nfunc _() {\n\t" + strings.Join(calls, "\n\t") + "\n}\n", Tag: "F4-import-metavar-two/" + specs[0] + "," + specs[1]})
+			}
+		}
+	}
 	// F3: a name is a metavariable only in the change that declares it
 	decl := func(vars ...string) []model.MetaVar { return c02Meta(vars) }
 	for _, first := range [][]string{{"x"}, {"n"}, {"x", "n"}} {
